@@ -525,6 +525,20 @@ fn enumerate_special(s: &mut Sink, mode: Mode, g: &mut u64) {
                 }
                 nn += 2;
             }
+            // beyond the limit of 1,000,000 instruction slots, with wide loads: counting instructions
+            // instead of slots must not let a longer program in
+            for (slots, wide) in [(1_000_001usize, 1usize), (1_000_002, 2), (1_000_002, 1), (1_400_000, 400_000), (2_000_000, 1_000_000 - 1), (1_000_000, 1), (1_000_000, 499_999)] {
+                let mut prog: Vec<I> = Vec::with_capacity(slots);
+                for k in 0..wide {
+                    prog.extend(isa::lddw(1, k as u64));
+                }
+                while prog.len() < slots - 1 {
+                    prog.push(isa::mov64i(0, 0));
+                }
+                prog.push(isa::EXIT);
+                c06_check(s, &isa::enc(&prog), 0, true);
+                nn += 1;
+            }
             s.count("evaluations", nn);
             s.count("states", nn);
             s.done("length classes");
@@ -971,6 +985,116 @@ fn c12_sizing(s: &mut Sink, g: &mut u64) {
         }
         s.done("every sizing unit repeated to fill 1000000 instruction slots");
     }
+    // every machine-code jump distance (the layer-5 programs of C03), compile only, twice
+    for a in 0..=32usize {
+        let idx = *g;
+        *g += 1;
+        if !s.take(idx) {
+            continue;
+        }
+        let mut nn = 0;
+        for b in 0..=64usize {
+            for shape in 0..7u8 {
+                let bytes = isa::enc(&isaeng::l5_distance_program(shape, a, b));
+                c12_check(s, &bytes, 0, Eng::Jit, false);
+                nn += 1;
+                if a % 8 == 0 && b % 8 == 0 {
+                    c12_check(s, &bytes, 0, Eng::Cl, false);
+                    nn += 1;
+                }
+            }
+        }
+        s.count("evaluations", nn);
+        s.count("states", nn);
+    }
+    s.done("jump distances: 7 jump shapes x 0..=32 seven-byte and 0..=64 three-byte fillers");
+    // long chains, compiled on a thread with a 512 KiB stack: a compiler pass whose recursion depth
+    // grows with the length of a chain overflows it
+    let chain_lens: Vec<usize> = if thorough { vec![20_000, 100_000, 333_000] } else { vec![20_000] };
+    for k in chain_lens {
+        for (cname, unit_len) in [("if-chain", 2usize), ("jump-to-end", 1), ("back-jumps", 1), ("call-chain", 2), ("wide-loads", 2), ("helper-calls", 1), ("ja-chain", 1)] {
+            let idx = *g;
+            *g += 1;
+            if !s.take(idx) {
+                continue;
+            }
+            let mut prog: Vec<I> = vec![isa::mov64i(0, 0), isa::mov64i(1, 0)];
+            match cname {
+                "if-chain" => {
+                    for j in 0..k {
+                        prog.push(I::new(0x15, 1, 0, 1, (j % 1000) as i32 + 1));
+                        prog.push(isa::add64i(0, 1));
+                    }
+                }
+                "jump-to-end" => {
+                    // every conditional jump targets the final exit (while it is within 16 bits), then the next block
+                    let k = k.min(32_000);
+                    for j in 0..k {
+                        prog.push(I::new(0x15, 1, 0, (k - j - 1) as i16, 7));
+                    }
+                }
+                "back-jumps" => {
+                    for _ in 0..k {
+                        prog.push(I::new(0x15, 1, 0, -2, 77));
+                    }
+                }
+                "call-chain" => {
+                    // f_j: call f_{j+1}; exit
+                    for _ in 0..k {
+                        prog.push(isa::call_local(1));
+                        prog.push(isa::EXIT);
+                    }
+                }
+                "wide-loads" => {
+                    for j in 0..k {
+                        prog.extend(isa::lddw(2, j as u64));
+                    }
+                }
+                "helper-calls" => {
+                    for _ in 0..k {
+                        prog.push(isa::call_helper(1));
+                    }
+                }
+                _ => {
+                    for _ in 0..k {
+                        prog.push(isa::ja(0));
+                    }
+                }
+            }
+            let _ = unit_len;
+            prog.push(isa::EXIT);
+            let bytes = isa::enc(&prog);
+            for eng in [Eng::Jit, Eng::Cl] {
+                let b2 = bytes.clone();
+                let end = in_small_stack_child(300, 512 * 1024, move || {
+                    let r = catch(|| {
+                        let mut vm = AnyVm::new(VmKind::NoData, Some(&b2)).map_err(|e| format!("load: {e}"))?;
+                        vm.register_helper(1, h1)?;
+                        vm.compile(eng)
+                    });
+                    match r {
+                        Ok(Ok(())) => b"OK".to_vec(),
+                        Ok(Err(e)) => format!("ERR {e}").into_bytes(),
+                        Err(m) => format!("PANIC {m}").into_bytes(),
+                    }
+                });
+                s.count("traces_validated_against_impl", 1);
+                s.count("evaluations", 1);
+                s.count("states", 1);
+                s.count("transitions", 1);
+                let rp = json!({"kind":"none"});
+                match end {
+                    ChildEnd::Ok(b) if b.starts_with(b"OK") => s.outcome("compile-ok", 1),
+                    ChildEnd::Ok(b) if b.starts_with(b"ERR load") => s.violation(&format!("verifier/chain-{cname}/rejects-template"), String::from_utf8_lossy(&b).to_string(), rp),
+                    ChildEnd::Ok(b) if b.starts_with(b"ERR") => s.outcome("compile-err (an error value: allowed by C12)", 1),
+                    ChildEnd::Ok(b) => s.violation(&format!("{}/chain-{cname}/compile-{}", eng.name(), panic_class(&String::from_utf8_lossy(&b))), format!("{k} x {cname}: {}", String::from_utf8_lossy(&b)), rp),
+                    ChildEnd::Signal(sig) => s.violation(&format!("{}/chain-{cname}/crash:{}", eng.name(), signame(sig)), format!("{k} x {cname}: compilation on a thread with a 512 KiB stack died with {} (stack exhausted: recursion depth grows with the chain)", signame(sig)), rp),
+                    ChildEnd::Exit(c) => s.violation(&format!("{}/chain-{cname}/child-exit:{c}", eng.name()), format!("{k} x {cname}"), rp),
+                }
+            }
+        }
+    }
+    s.done("long chains (conditional jumps, jumps to one target, backward jumps, local calls, wide loads, helper calls, ja) compiled on a 512 KiB stack");
     // far jumps and far local calls (32-bit displacement for calls, 16-bit for jumps)
     for (n, p, d, call) in [
         (70_000usize, 10usize, 32768i32, true), (70_000, 10, 40_000, true), (70_000, 10, 69_000, true), (70_000, 69_000, -32769, true),
